@@ -93,7 +93,7 @@ func NewChunkReader(data []byte, sizes []int, tailErr bool) *ChunkReader {
 
 func (c *ChunkReader) Read(p []byte) (int, error) {
 	c.Reads++
-	for c.left == 0 {
+	if c.left == 0 {
 		if c.pos >= len(c.Data) {
 			if c.TailErr {
 				return 0, ErrInjected
@@ -103,6 +103,10 @@ func (c *ChunkReader) Read(p []byte) (int, error) {
 		if c.idx < len(c.Sizes) {
 			c.left = c.Sizes[c.idx]
 			c.idx++
+			if c.left == 0 {
+				// a zero-length chunk is an empty message of a message transport: Read returns (0, nil)
+				return 0, nil
+			}
 		} else {
 			c.left = len(c.Data) - c.pos
 		}
